@@ -4995,3 +4995,355 @@ def specialise_strategies(fn):
                 blk.remove(st)
                 return specialise_strategies(fn) or True
     return done
+
+
+def unroll_reduce(tree):
+    """`functools.reduce(f, TABLE, init)` over a written-out tuple/list (in
+    place, or a module-level name bound once and never edited) -> the nested
+    calls `f(f(init, T0), T1)`"""
+    bound, count = {}, {}
+    for st in tree.body:
+        if isinstance(st, ast.Assign) and len(st.targets) == 1 and \
+                isinstance(st.targets[0], ast.Name):
+            count[st.targets[0].id] = count.get(st.targets[0].id, 0) + 1
+            bound[st.targets[0].id] = st.value
+    stores = {}
+    for n in ast.walk(tree):
+        if isinstance(n, ast.Name) and isinstance(
+                n.ctx, (ast.Store, ast.Del)):
+            stores[n.id] = stores.get(n.id, 0) + 1
+    done = False
+
+    def table(e):
+        if isinstance(e, ast.Name) and count.get(e.id) == 1 and \
+                stores.get(e.id) == 1 and isinstance(
+                    bound[e.id], ast.Tuple):
+            e = bound[e.id]
+        if isinstance(e, (ast.Tuple, ast.List)) and 0 < len(e.elts) <= 16 \
+                and not any(isinstance(x, ast.Starred) for x in e.elts):
+            if isinstance(e, ast.List) and not isinstance(
+                    e.ctx, ast.Load):
+                return None
+            return e.elts
+        return None
+
+    class R(ast.NodeTransformer):
+        def visit_Call(self, node):
+            nonlocal done
+            self.generic_visit(node)
+            if norm(node.func) in ("functools.reduce", "reduce") and \
+                    len(node.args) in (2, 3) and not node.keywords and \
+                    isinstance(node.args[0], (ast.Name, ast.Attribute)):
+                elts = table(node.args[1])
+                if elts is None:
+                    return node
+                elts = [clone(x) for x in elts]
+                if len(node.args) == 3:
+                    acc = node.args[2]
+                else:
+                    acc, elts = elts[0], elts[1:]
+                for x in elts:
+                    acc = ast.Call(func=clone(node.args[0]),
+                                   args=[acc, x], keywords=[])
+                done = True
+                return ast.copy_location(acc, node)
+            return node
+    R().visit(tree)
+    if done:
+        ast.fix_missing_locations(tree)
+    return done
+
+
+def lift_local_defs(tree):
+    """lambda lifting: a nested multi-statement `def h(a): ...` that is only
+    called directly from its enclosing function and captures only names the
+    enclosing function binds at most once -> a private module-level function
+    taking the captured names as further parameters (the helper inliner
+    then sees an ordinary private helper)"""
+    changed = False
+    taken = {n.name for n in ast.walk(tree) if isinstance(
+        n, (ast.FunctionDef, ast.ClassDef))} | {
+        n.id for n in ast.walk(tree) if isinstance(n, ast.Name)}
+    hosts = []
+    for st in tree.body:
+        if isinstance(st, ast.FunctionDef):
+            hosts.append(st)
+        elif isinstance(st, ast.ClassDef):
+            hosts += [x for x in st.body if isinstance(x, ast.FunctionDef)]
+    new_defs = []
+    for fn in hosts:
+        for d in list(fn.body):
+            if not isinstance(d, ast.FunctionDef) or d.decorator_list or \
+                    getattr(d, "_from_closure_form", False):
+                continue
+            a = d.args
+            if a.vararg or a.kwarg or a.posonlyargs or a.kwonlyargs or \
+                    a.defaults:
+                continue
+            if _single_return(d) is not None:
+                continue
+            inner = list(ast.walk(d))
+            if any(isinstance(n, (ast.Nonlocal, ast.Global, ast.Yield,
+                                  ast.YieldFrom, ast.Await, ast.ClassDef))
+                   or (isinstance(n, ast.FunctionDef) and n is not d)
+                   for n in inner):
+                continue
+            if sum(1 for x in fn.body if isinstance(x, ast.FunctionDef)
+                   and x.name == d.name) != 1:
+                continue
+            inner_ids = {id(n) for n in inner}
+            uses = [n for n in ast.walk(fn) if isinstance(n, ast.Name)
+                    and n.id == d.name and id(n) not in inner_ids]
+            calls = [n for n in ast.walk(fn) if isinstance(n, ast.Call)
+                     and isinstance(n.func, ast.Name)
+                     and n.func.id == d.name and id(n) not in inner_ids]
+            if any(isinstance(n, ast.Name) and n.id == d.name
+                   for n in inner):
+                continue    # recursive
+            if not calls or len(uses) != len(calls):
+                continue
+            # calls from other nested scopes are not rewritten
+            other = set()
+            for o in ast.walk(fn):
+                if o is not fn and o is not d and isinstance(o, (
+                        ast.FunctionDef, ast.Lambda, ast.ListComp,
+                        ast.SetComp, ast.DictComp, ast.GeneratorExp)):
+                    other |= {id(x) for x in ast.walk(o)}
+            if any(id(c) in other for c in calls):
+                continue
+            if any(c.keywords or len(c.args) != len(a.args) or any(
+                    isinstance(x, ast.Starred) for x in c.args)
+                    for c in calls):
+                continue
+            params = {p.arg for p in a.args}
+            d_local = params | {n.id for n in inner if isinstance(
+                n, ast.Name) and isinstance(n.ctx, (ast.Store, ast.Del))}
+            fa = fn.args
+            fn_params = [p.arg for p in fa.posonlyargs + fa.args
+                         + fa.kwonlyargs] + [
+                x.arg for x in (fa.vararg, fa.kwarg) if x]
+            stores = {}
+            for n in ast.walk(fn):
+                if id(n) in inner_ids:
+                    continue
+                if isinstance(n, ast.Name) and isinstance(
+                        n.ctx, (ast.Store, ast.Del)):
+                    stores[n.id] = stores.get(n.id, 0) + 1
+                elif isinstance(n, (ast.FunctionDef, ast.ClassDef)) and \
+                        n is not fn:
+                    stores[n.name] = stores.get(n.name, 0) + 2
+            fn_local = set(fn_params) | set(stores)
+            free = []
+            for n in inner:
+                if isinstance(n, ast.Name) and isinstance(
+                        n.ctx, ast.Load) and n.id not in d_local and \
+                        n.id in fn_local and n.id not in free:
+                    free.append(n.id)
+            if any(stores.get(f, 0) > (0 if f in fn_params else 1)
+                   for f in free):
+                continue
+            name = f"_{fn.name.lstrip('_')}__{d.name}"
+            if name in taken:
+                continue
+            taken.add(name)
+            nd = clone(d)
+            nd.name = name
+            nd.args.args = nd.args.args + [ast.arg(arg=f) for f in free]
+            nd._spliced = True
+            nd._lifted = True
+            for c in calls:
+                c.func = ast.copy_location(ast.Name(id=name, ctx=ast.Load()),
+                                           c.func)
+                c.args = c.args + [ast.Name(id=f, ctx=ast.Load())
+                                   for f in free]
+            fn.body = [x for x in fn.body if x is not d] or [ast.Pass()]
+            new_defs.append(nd)
+            changed = True
+    if changed:
+        tree.body = tree.body + new_defs
+        ast.fix_missing_locations(tree)
+    return changed
+
+
+def propagate_local_constants(fn, only_generated=False):
+    """a local bound exactly once, to a number/string/None literal, a closed
+    arithmetic expression or a dotted function of an imported module
+    (`operator.sub`) -> the value at its reads (every read sees that value
+    or fails either way)"""
+    stores = {}
+    nodes = list(ast.walk(fn))
+    for n in nodes:
+        if isinstance(n, ast.Name) and isinstance(
+                n.ctx, (ast.Store, ast.Del)):
+            stores[n.id] = stores.get(n.id, 0) + 1
+        elif isinstance(n, (ast.Global, ast.Nonlocal)):
+            for x in n.names:
+                stores[x] = stores.get(x, 0) + 2
+        elif isinstance(n, (ast.FunctionDef, ast.ClassDef)) and n is not fn:
+            stores[n.name] = stores.get(n.name, 0) + 2
+        elif isinstance(n, ast.arg):
+            stores[n.arg] = stores.get(n.arg, 0) + 2
+    vals = {}
+    defs = {}
+    for par in [fn] + list(_walk_own(fn)):
+        for fld in ("body", "orelse", "finalbody"):
+            blk = getattr(par, fld, None)
+            if not isinstance(blk, list):
+                continue
+            for st in blk:
+                if isinstance(st, ast.Assign) and len(st.targets) == 1 and \
+                        isinstance(st.targets[0], ast.Name) and \
+                        stores.get(st.targets[0].id) == 1:
+                    nm = st.targets[0].id
+                    if only_generated and "__h" not in nm and \
+                            "__inl" not in nm:
+                        continue
+                    v = st.value
+                    ok = False
+                    if isinstance(v, ast.Constant) and (
+                            v.value is None or isinstance(
+                                v.value, (int, float, str, bool))):
+                        ok = True
+                    elif _closed_number(v) is not None:
+                        ok = True
+                    elif isinstance(v, ast.Attribute) and isinstance(
+                            v.value, ast.Name) and v.value.id in (
+                            "operator", "math") and \
+                            v.value.id not in stores:
+                        ok = True
+                    if ok:
+                        vals[nm] = v
+                        defs[nm] = (blk, st)
+    if not vals:
+        return False
+    changed = False
+
+    class S(ast.NodeTransformer):
+        def visit_Name(self, node):
+            nonlocal changed
+            if isinstance(node.ctx, ast.Load) and node.id in vals:
+                changed = True
+                return ast.copy_location(clone(vals[node.id]), node)
+            return node
+    S().visit(fn)
+    if changed:
+        for nm, (blk, st) in defs.items():
+            if st in blk and len(blk) > 1:
+                blk.remove(st)
+            elif st in blk:
+                blk[blk.index(st)] = ast.copy_location(ast.Pass(), st)
+        ast.fix_missing_locations(fn)
+    return changed
+
+
+def dissolve_namespace_classes(tree):
+    """a private class that is only a namespace (no bases, no instances:
+    class-level constants, static methods and class methods, always reached
+    as `_C.member` / `cls.member`) -> module-level constants and private
+    functions"""
+    changed = False
+    for cls in list(tree.body):
+        if not isinstance(cls, ast.ClassDef) or not cls.name.startswith(
+                "_") or cls.name.startswith("__") or cls.keywords or \
+                cls.decorator_list or any(
+                    norm(b) != "object" for b in cls.bases):
+            continue
+        members = {}
+        ok = True
+        for st in cls.body:
+            if _doc(st) or isinstance(st, ast.Pass):
+                continue
+            if isinstance(st, ast.Assign) and len(st.targets) == 1 and \
+                    isinstance(st.targets[0], ast.Name):
+                members[st.targets[0].id] = ("const", st)
+            elif isinstance(st, ast.FunctionDef) and len(
+                    st.decorator_list) == 1 and norm(
+                    st.decorator_list[0]) in ("staticmethod",
+                                              "classmethod") and \
+                    not st.name.startswith("__"):
+                kind = norm(st.decorator_list[0])
+                if kind == "classmethod" and (
+                        not st.args.args or st.args.posonlyargs):
+                    ok = False
+                members[st.name] = (kind, st)
+            else:
+                ok = False
+        if not ok or not members:
+            continue
+        # class-level constants must not read other members by bare name
+        for nm, (kind, st) in members.items():
+            if kind == "const" and any(
+                    isinstance(n, ast.Name) and n.id in members
+                    for n in ast.walk(st.value)):
+                ok = False
+        # every mention of the class is `_C.<member>` (read)
+        inside = {id(n) for n in ast.walk(cls)}
+        parent_attr = {}
+        for n in ast.walk(tree):
+            if isinstance(n, ast.Attribute) and isinstance(
+                    n.value, ast.Name):
+                parent_attr[id(n.value)] = n
+        for n in ast.walk(tree):
+            if isinstance(n, ast.Name) and n.id == cls.name:
+                a = parent_attr.get(id(n))
+                if a is None or a.attr not in members or not isinstance(
+                        a.ctx, ast.Load):
+                    ok = False
+        # `cls` inside class methods: only `cls.<member>` reads
+        for nm, (kind, st) in members.items():
+            if kind != "classmethod":
+                continue
+            c = st.args.args[0].arg
+            for n in ast.walk(st):
+                if isinstance(n, ast.Name) and n.id == c:
+                    a = parent_attr.get(id(n))
+                    if a is None or a.attr not in members or \
+                            not isinstance(a.ctx, ast.Load):
+                        ok = False
+        taken = {n.id for n in ast.walk(tree) if isinstance(n, ast.Name)} | {
+            n.name for n in ast.walk(tree) if isinstance(
+                n, (ast.FunctionDef, ast.ClassDef))}
+        new = {nm: f"{cls.name}__{nm}" for nm in members}
+        if not ok or any(v in taken for v in new.values()):
+            continue
+        out = []
+        for nm, (kind, st) in members.items():
+            if kind == "const":
+                x = ast.Assign(targets=[ast.Name(id=new[nm],
+                                                 ctx=ast.Store())],
+                               value=st.value)
+                out.append(ast.copy_location(x, st))
+            else:
+                st.decorator_list = []
+                if kind == "classmethod":
+                    c = st.args.args[0].arg
+                    st.args.args = st.args.args[1:]
+
+                    class C(ast.NodeTransformer):
+                        def visit_Attribute(self, node):
+                            self.generic_visit(node)
+                            if isinstance(node.value, ast.Name) and \
+                                    node.value.id == c:
+                                return ast.copy_location(ast.Name(
+                                    id=new[node.attr], ctx=ast.Load()), node)
+                            return node
+                    C().visit(st)
+                st.name = new[nm]
+                st._spliced = True
+                out.append(st)
+
+        class T(ast.NodeTransformer):
+            def visit_Attribute(self, node):
+                self.generic_visit(node)
+                if isinstance(node.value, ast.Name) and \
+                        node.value.id == cls.name:
+                    return ast.copy_location(ast.Name(
+                        id=new[node.attr], ctx=ast.Load()), node)
+                return node
+        i = tree.body.index(cls)
+        tree.body[i:i + 1] = out
+        T().visit(tree)
+        changed = True
+    if changed:
+        ast.fix_missing_locations(tree)
+    return changed
